@@ -184,6 +184,17 @@ def run_stream(spec, prop, schema):
                 col.count("chunktype:%s%s" % (t, ":string-lines" if isinstance(base, list) and base and isinstance(base[0], str) else ""))
         return chunks
     mg.make_merge_chunks = counted_chunks
+    # exhaustive: every ordered triple of the degenerate documents (empty parts wherever emptiness is legal)
+    import itertools
+    from ..workloads import degenerate_docs
+    docs = degenerate_docs()
+    nsh, ish = spec.get("nshards", 16), spec.get("shard", 0)
+    for k, (b, l, rm) in enumerate(itertools.permutations(docs, 3)):
+        if k % nsh != ish % nsh:
+            continue
+        cfg = allc[(k // nsh) % len(allc)]
+        merge_case(col, paths, "degenerate", b, l, rm, {}, cfg, variants[k % 3], schema, prop)
+        col.count("degenerate_triples_enumerated")
     for k in range(spec["triples"]):
         gen = NBGen(r, exotic=(k % 5 == 0))
         minor = k % 6 if schema else None
